@@ -103,6 +103,17 @@ def gen_project(rng, n_files: int, dup_share: float = 0.35, dirs=("", "pkg_a", "
         text = py_file(rng, k, dup) if lang == "py" else ts_file(rng, k, dup) if lang == "ts" else rs_file(rng, k)
         files.append((rel, text))
     if rng.random() < 0.6:
+        for rel, text in bait_files(rng, dirs, 7000 + k):
+            if rel not in used:
+                used.add(rel)
+                files.append((rel, text))
+    if rng.random() < 0.3 and any(dirs[1:]):
+        # a .thailintignore below the project root is just a file: only the root's one is the repository ignore list
+        rel = rng.choice([d for d in dirs if d]) + "/.thailintignore"
+        if rel not in used:
+            used.add(rel)
+            files.append((rel, "*.py\n*.ts\n*.rs\n"))
+    if rng.random() < 0.6:
         # extensionless files: language decided per file (python shebang or unknown), in whatever order they are met
         extra = [("LICENSE", "Permission is hereby granted, free of charge (4242 times)\n" * 3),
                  ("deploy", "#!/usr/bin/env python3\n" + py_file(rng, 9000 + k, None)),
@@ -116,6 +127,52 @@ def gen_project(rng, n_files: int, dup_share: float = 0.35, dirs=("", "pkg_a", "
                 used.add(rel)
                 files.append((rel, text))
     return files
+
+
+# Pairs of files in which a name means one thing in the first file and another in the second: an analyzer that keeps
+# what it learned from one file (aliases, imported names, variable kinds, "this is a definitions module") when it moves on to the
+# next reports the second file differently depending on what was linted before it.
+BAITS = {
+    "regex-names": ("py", [
+        "import re as regex", "from re import search, match", "", "", "def scan_{k}(items):", "    out = []", "    for it in items:",
+        "        if search('a+', it) or regex.match('b', it):", "            out.append(it)", "    return out", ""], [
+        "import regex", "", "", "def search(pattern, text):", "    return pattern in text", "", "", "def match(pattern, text):",
+        "    return text.startswith(pattern)", "", "", "def scan_{k}(items):", "    out = []", "    for it in items:",
+        "        if search('a', it) or match('b', it) or regex.match('c', it):", "            out.append(it)", "    return out", ""]),
+    "string-kinds": ("py", [
+        "def render_{k}(items):", "    result = ''", "    label = ''", "    for it in items:", "        result += str(it)", "        label += '.'",
+        "    return result + label", ""], [
+        "def total_{k}(items):", "    result = 0", "    label = 0", "    for it in items:", "        result += it", "        label += 1",
+        "    return result + label", ""]),
+    "definitions-module": ("py", ["ALPHA_{k} = 101", "BETA_{k} = 102", "GAMMA_{k} = 103", "DELTA_{k} = 104", "EPSILON_{k} = 105", "ZETA_{k} = 106",
+                                  "ETA_{k} = 107", "THETA_{k} = 108", "IOTA_{k} = 109", "KAPPA_{k} = 110", "LAMBDA_{k} = 111", "", "",
+                                  "def pick_{k}(a):", "    return a + 4321", ""],
+                           ["LIMIT_{k} = 201", "", "", "def pick_{k}(a):", "    return a + 1234", ""]),
+    "class-state": ("py", [
+        "class Shared:", "    def __init__(self):", "        self.items = []", "", "    def add(self, x):", "        self.items.append(x)", "",
+        "    def size(self):", "        return len(self.items)", ""], [
+        "class Shared:", "    def add(self, x):", "        return x + 1", "", "    def size(self, x):", "        return x * 2", ""]),
+    "rust-imports": ("rs", [
+        "use tokio::fs;", "use tokio::time::sleep;", "", "async fn load_{k}(p: &str) {{", "    let _a = fs::read_to_string(p).await;", "}}", ""], [
+        "use std::fs;", "", "async fn load_{k}(p: &str) {{", "    let _a = fs::read_to_string(p);", "}}", ""]),
+    "ts-consts": ("ts", [
+        "const RETRIES = 7;", "const backoff_{k} = 1234;", "function wait_{k}(a: number) {{", "  return a + 4321;", "}}", ""], [
+        "let RETRIES = 0;", "function wait_{k}(a: number) {{", "  RETRIES = a + 5678;", "  return RETRIES;", "}}", ""]),
+}
+
+
+def bait_files(rng, dirs, k0: int) -> list[tuple[str, str]]:
+    out = []
+    for n, kind in enumerate(rng.sample(sorted(BAITS), rng.choice([2, 3, 4]))):
+        ext, first, second = BAITS[kind]
+        d = rng.choice(dirs)
+        pre = (d + "/" if d else "")
+        # both traversal orders: the file that teaches the names sorts before and after the file that reuses them
+        for j, (a, b) in enumerate((("aa_first", "zz_second"), ("zz_first", "aa_second"))):
+            k = k0 + 2 * n + j
+            out.append((f"{pre}{a}_{k}.{ext}", "\n".join(first).format(k=k)))
+            out.append((f"{pre}{b}_{k}.{ext}", "\n".join(second).format(k=k)))
+    return out
 
 
 def write_project(root: Path, files, config_text: str | None) -> None:
